@@ -8,8 +8,6 @@ import (
 	"strconv"
 	"strings"
 
-	"github.com/pkg/errors"
-
 	"github.com/xelaj/mtproto/internal/mtproto/objects"
 )
 
@@ -83,9 +81,13 @@ func TryExpandError(errStr string) (nativeErrorName string, additionalData any) 
 
 	switch v := choosedPrefixSuffix.kind; v { //nolint:exhaustive others will panic
 	case reflect.Int:
-		var err error
-		additionalData, err = strconv.Atoi(trimmedData)
-		check(errors.Wrap(err, "error of parsing expected int value"))
+		parsed, err := strconv.Atoi(trimmedData)
+		if err != nil {
+			// parameter is absent, non-numeric or out of range: it's not the pattern we know, so
+			// returning error text as is, like any other common error
+			return errStr, nil
+		}
+		additionalData = parsed
 
 	case reflect.String:
 		additionalData = trimmedData
